@@ -11,6 +11,7 @@ RULE = ("for CR-free documents D (generated, spec inputs, constructs left open a
         "and D plus one final LF when D does not end with one, under random plugin sets; oracle: identical HTML. "
         "Non-trivial = D contains a line ending; distinct = distinct D.")
 OPEN = ["```\ncode", "~~~ x\na\n\nb", "<div>\nx", "<!-- c\nd", "<script>\nx\n\ny", "[r]: /u\n'title\nmore'", "[r]:\n/u", "> a\nlazy", "- a\n  b\n\n  c", "a  \nb", "a\\\nb", "    code\n\n    more",
+        "#", "##", "######", "a\n#", "> #", "- ##", "# h\n#", "---", "***", "- a\n-", "1.", "a\n===", "a\n-", ">", "    ", "```", "~~~", "<div>", "[r]: /u", "&amp;", "\\", "`a`", "a  ", "a\\",
         "[a\nb](u\n'c\nd')", "`a\nb`", "*a\nb*", "<a\nb>", "h\n===", "h\n---", "# h\n", "&amp;\n", "1. a\n\n   b\n2. c"]
 
 
@@ -24,6 +25,14 @@ def cases(rng, tier, Case):
         docs.append(d)
     for _ in range(n):
         docs.append(mdgen.clean_utf8(mdgen.gen_doc(rng)))
+    # constructs whose extent crosses a round size (a limit counted in bytes would count the line terminators)
+    for total in (510, 1010, 1023, 2040) if tier == "quick" else (120, 250, 510, 1000, 1010, 1020, 1023, 1024, 2040, 4090, 8180, 16370, 65530):
+        for per in ((63, 1023) if tier == "quick" else (63, 31, 1023)):
+            nl = max(1, total // (per + 1))
+            body = "\n".join("w" * per for _ in range(nl))
+            docs += [body + "\n===", body + "\n---\n", "> " + body.replace("\n", "\n> ") + "\n", "- " + body.replace("\n", "\n  ") + "\n",
+                     "```\n" + body + "\n```", "[r]: /u '" + body + "'\n\n[r]", "[" + body[:900] + "](/u)", "`" + body + "`", "*" + body + "*",
+                     "<div>\n" + body + "\n</div>", "    " + body.replace("\n", "\n    "), "# " + "w" * min(total, 4000)]
     for d in docs:
         d = d.replace("\r\n", "\n").replace("\r", "\n")
         cfg = rng.choice(["CsW", "CsW", "CsWS", mdgen.gen_cfg(rng, forbid="S"), mdgen.gen_cfg(rng)])
